@@ -87,6 +87,8 @@ pub struct RunState {
     pub next_gate_id: u64,
     pub next_token: u64,
     pub emit_logs: bool,
+    /// The runner's CLI options of this run were parsed from an argument vector.
+    pub cli_from_argv: bool,
     /// Log at `WARN`/`ERROR` instead of `INFO` (runs whose subscriber filters out `INFO`).
     pub log_loud: bool,
     /// Lines logged outside of any span from inside callbacks.
